@@ -31,7 +31,7 @@ class Unspecified(Exception):
 
 
 class Scope:
-    __slots__ = ("parent", "kind", "name", "defs", "xdefs", "code", "table", "internal", "id")
+    __slots__ = ("parent", "kind", "name", "defs", "xdefs", "code", "table", "internal", "id", "declared")
     _n = 0
 
     def __init__(self, parent, kind, name=None):
@@ -39,6 +39,7 @@ class Scope:
         self.defs: dict[str, int] = {}
         self.xdefs: dict[str, int] = {}  # known at expansion time
         self.code: dict[str, list] = {}  # code-block macro arguments
+        self.declared: set[str] = set()  # names this scope defines at layout time (labels, = constants, late parameters)
         self.table = None
         self.internal = kind == "loop"
         Scope._n += 1
@@ -66,6 +67,10 @@ class Scope:
         while s is not None:
             if name in s.xdefs:
                 return s.xdefs[name]
+            if name in s.declared:
+                # the innermost enclosing scope that defines the name is this one, and its value is
+                # not known at expansion time: an outer binding must not leak in
+                raise KeyError(name)
             s = s.parent
         raise KeyError(name)
 
@@ -131,9 +136,25 @@ class Assembler:
         self.stats["max_depth"] = max(self.stats["max_depth"], d)
         return s
 
-    def expand(self, stmts, scope, depth=0):
+    def predeclare(self, stmts, scope):
+        for st in stmts:
+            k = st["k"]
+            if k == "label" or (k == "const" and not st["eager"]):
+                scope.declared.add(st["n"])
+            elif k == "incbin":
+                scope.declared.add(st["f"].replace("/", "_").replace(".", "_"))
+            elif k == "include":
+                self.predeclare(st["b"], scope)
+            elif k == "if":
+                self.predeclare(st["t"], scope)
+                if st.get("e") is not None:
+                    self.predeclare(st["e"], scope)
+
+    def expand(self, stmts, scope, depth=0, fresh=True):
         if depth > 60:
             raise Unspecified("expansion depth")
+        if fresh:
+            self.predeclare(stmts, scope)
         for st in stmts:
             if len(self.items) > MAX_ITEMS:
                 raise Unspecified("expansion size")
@@ -155,7 +176,7 @@ class Assembler:
             elif k == "scope":
                 self.expand(st["b"], self.new_scope(scope, "named", st["n"]), depth + 1)
             elif k == "include":
-                self.expand(st["b"], scope, depth + 1)
+                self.expand(st["b"], scope, depth + 1, fresh=False)
             elif k == "macro":
                 self.macros[st["n"]] = st
             elif k == "call":
@@ -173,6 +194,7 @@ class Assembler:
                     try:
                         callee.define(p, self.xeval(a, scope), x=True)  # evaluated at the CALL SITE
                     except KeyError:
+                        callee.declared.add(p)
                         self.items.append(("argdef", callee, {"n": p, "e": a, "site": scope}))
                 self.expand(m["b"], callee, depth + 1)
             elif k == "splice":
@@ -187,9 +209,9 @@ class Assembler:
                 except KeyError:
                     c = 0
                 if c:
-                    self.expand(st["t"], scope, depth + 1)
+                    self.expand(st["t"], scope, depth + 1, fresh=False)
                 elif st.get("e") is not None:
-                    self.expand(st["e"], scope, depth + 1)
+                    self.expand(st["e"], scope, depth + 1, fresh=False)
             elif k == "for":
                 try:
                     lo, hi = self.xeval(st["lo"], scope), self.xeval(st["hi"], scope)
